@@ -1,16 +1,28 @@
 package e2
 
 import (
+	"fmt"
+	"math/big"
 	"testing"
+	"time"
 
 	"pgregory.net/rapid"
 
 	"github.com/formancehq/go-libs/v5/pkg/storage/bun/paginate"
+	libtime "github.com/formancehq/go-libs/v5/pkg/types/time"
+
+	ledger "github.com/formancehq/ledger/internal"
+	"github.com/formancehq/ledger/internal/storage/common"
+	"github.com/formancehq/ledger/pkg/features"
+	"github.com/formancehq/ledger/verifharness/env"
+	"github.com/formancehq/ledger/verifharness/known"
 
 	"github.com/formancehq/ledger/verifharness/stats"
 )
 
 const histGen = "stateful histories (creates by postings incl. repeated accounts, self postings, zero/huge amounts, back-dated/tied/future timestamps, references; creates by generated Numscript on both runtimes; reverts force x atEffectiveDate; transaction/account metadata save/delete; dry runs; failing writes; clock advances; controller re-opens) applied to the real system controller + ledger controller chain + storage driver + ledger store over the pgsim stand-in and to the reference model"
+
+var knownLines = map[string][]string{}
 
 // postRun hooks let a property add end-of-history checks.
 var postRun = map[string]func(rt *rapid.T, w *World, l *LState){}
@@ -18,6 +30,10 @@ var postRun = map[string]func(rt *rapid.T, w *World, l *LState){}
 func runFocused(t *testing.T, id, rule string, o HistOpts, quick, thorough int, nontrivial func(*HistorySummary) bool, assumptions ...string) {
 	st := stats.New(id, "exploration", rule, append([]string{assumePgsim}, assumptions...)...)
 	defer st.Write(t)
+	for _, line := range knownLines[id] {
+		fmt.Println(line)
+		st.Known(line)
+	}
 	n := stats.N(quick, thorough)
 	st.Set("requested_checks", n)
 	if len(o.Focus) == 0 {
@@ -36,19 +52,19 @@ func runFocused(t *testing.T, id, rule string, o HistOpts, quick, thorough int, 
 
 func TestC01(t *testing.T) {
 	runFocused(t, "C01", histGen+"; after every step a drawn read and at the end a full sweep: per asset, balances of the volumes listing (now / PIT / window, both date modes, grouped) and aggregated balances (now / PIT) must sum to zero; non-trivial = >= 1 multi-touch or self-posting transaction and >= 1 revert; distinct = by operation history",
-		HistOpts{Features: GenFeatures, Steps: 25, Scripts: true, Reverts: true, Metadata: false, Reads: true, FinalReads: true, PITReads: true, MaxPostings: 5}, 150, 500,
+		HistOpts{Features: GenFeatures, Steps: 25, Scripts: true, Reverts: true, Metadata: false, Reads: true, FinalReads: true, PITReads: true, MaxPostings: 5}, 400, 900,
 		func(s *HistorySummary) bool { return (s.MultiTouch >= 1 || s.SelfPosting >= 1) && s.Reverts >= 1 })
 }
 
 func TestC03(t *testing.T) {
 	runFocused(t, "C03", histGen+"; every committed transaction's postCommitVolumes (in the write response and in every later listing, any page size/order, with or without PIT) must equal the fold up to that transaction for exactly the touched account/asset pairs; preCommitVolumes are checked through the JSON rendering; non-trivial = >= 1 transaction touching one account/asset several times and >= 3 commits; distinct = by operation history",
-		HistOpts{Features: GenFeatures, Steps: 25, Scripts: true, Reverts: true, Reads: true, FinalReads: true, PITReads: true, MaxPostings: 8}, 150, 500,
+		HistOpts{Features: GenFeatures, Steps: 25, Scripts: true, Reverts: true, Reads: true, FinalReads: true, PITReads: true, MaxPostings: 8}, 400, 900,
 		func(s *HistorySummary) bool { return s.MultiTouch >= 1 && s.Commits >= 3 })
 }
 
 func TestC05(t *testing.T) {
 	runFocused(t, "C05", histGen+"; reads at generated instants (exactly on, 1us before/after, and far from recorded effective/insertion/revert dates) with optional start of window, both date modes and grouping: transactions, accounts (+volumes/effectiveVolumes), volumes, aggregated balances are compared with the fold of the model's moves in that window; non-trivial = >= 1 back-dated transaction, >= 1 revert and >= 1 PIT read; distinct = by operation history",
-		HistOpts{Features: FullFeatures, Steps: 25, Scripts: false, Reverts: true, Metadata: true, Reads: true, FinalReads: true, PITReads: true}, 150, 500,
+		HistOpts{Features: FullFeatures, Steps: 25, Scripts: false, Reverts: true, Metadata: true, Reads: true, FinalReads: true, PITReads: true}, 400, 900,
 		func(s *HistorySummary) bool { return s.BackDated >= 1 && s.Reverts >= 1 && s.PITReads >= 1 })
 }
 
@@ -75,30 +91,59 @@ func init() {
 
 func TestC08(t *testing.T) {
 	runFocused(t, "C08", histGen+"; every committed write must return exactly one log whose id exceeds all earlier ones, failed/dry-run/read operations none; the journal listing (both orders, any page size) must equal the sequence of committed writes; at the end the exported log payloads alone are replayed into a fresh reference model which must equal the live ledger's reads; non-trivial = history with a revert, a metadata delete and >= 3 commits; distinct = by operation history",
-		HistOpts{Features: GenFeatures, Steps: 25, Scripts: true, Reverts: true, Metadata: true, Reads: true, FinalReads: true}, 150, 500,
+		HistOpts{Features: GenFeatures, Steps: 25, Scripts: true, Reverts: true, Metadata: true, Reads: true, FinalReads: true}, 400, 900,
 		func(s *HistorySummary) bool { return s.Reverts >= 1 && s.MetaOps >= 1 && s.Commits >= 3 })
 }
 
 func TestC15(t *testing.T) {
 	runFocused(t, "C15", histGen+", biased to reverts (incl. reverts of reverts, of unknown ids, repeated reverts); the revert response must carry the original postings reversed and swapped, the revert mark, the right timestamp; the original must read back reverted exactly once; outcome (ok / already-reverted / not-found / insufficient funds) must match the model; non-trivial = >= 2 reverts of multi-posting transactions and >= 1 refused revert; distinct = by operation history",
-		HistOpts{Focus: []string{"C15"}, Features: GenFeatures, Steps: 30, Reverts: true, Reads: true, FinalReads: true, MaxPostings: 4}, 150, 500,
+		HistOpts{Focus: []string{"C15"}, Features: GenFeatures, Steps: 30, Reverts: true, Reads: true, FinalReads: true, MaxPostings: 4}, 400, 900,
 		func(s *HistorySummary) bool { return s.Reverts >= 2 && s.Failures >= 1 })
 }
 
 func TestC17(t *testing.T) {
 	runFocused(t, "C17", histGen+", biased to metadata operations, over the 4 combinations of the two metadata-history features; current metadata must equal last-write-wins minus deletions; reads at generated instants must return the metadata as of that instant when the resource's history feature is SYNC and the current metadata when it is DISABLED; non-trivial = >= 3 metadata writes and >= 1 PIT read; distinct = by operation history",
-		HistOpts{Features: GenFeatures, Steps: 30, Scripts: true, Reverts: true, Metadata: true, Reads: true, FinalReads: true, PITReads: true}, 150, 500,
+		HistOpts{Features: GenFeatures, Steps: 30, Scripts: true, Reverts: true, Metadata: true, Reads: true, FinalReads: true, PITReads: true}, 400, 900,
 		func(s *HistorySummary) bool { return s.MetaOps >= 3 && s.PITReads >= 1 })
 }
 
+// reproduceRevertFirstUsage is the pinned reproducer of known finding C18-revert-first-usage.
+func reproduceRevertFirstUsage() bool {
+	w := NewWorld(&quietT{}, nil, env.Options{})
+	defer w.Close()
+	l := w.AddLedger("l1", "b1", features.DefaultFeatures)
+	now := w.Env.Sim.Clock()
+	out := w.CreateTx(l, TxRequest{Postings: ledger.Postings{ledger.NewPosting("world", "u:1", "USD/2", big.NewInt(5))}, Timestamp: now.Add(24 * time.Hour)})
+	if out.Kind != ErrNone {
+		return false
+	}
+	if w.Revert(l, RevertRequest{ID: *out.Tx.ID, Force: true}).Kind != ErrNone {
+		return false
+	}
+	pit := libtime.New(now.Add(time.Hour))
+	cur, err := l.C.ListAccounts(w.Ctx, common.InitialPaginatedQuery[any]{PageSize: 15, Options: common.ResourceQuery[any]{PIT: &pit}})
+	if err != nil {
+		return false
+	}
+	for _, a := range cur.Data {
+		if a.Address == "u:1" {
+			return false
+		}
+	}
+	return true // u:1 is involved in a committed transaction dated `now` but is not listed an hour later
+}
+
 func TestC18(t *testing.T) {
+	if known.IsOpen(FindingRevertFirstUsage) && reproduceRevertFirstUsage() {
+		knownLines["C18"] = append(knownLines["C18"], known.Line(FindingRevertFirstUsage))
+	}
 	runFocused(t, "C18", histGen+"; the accounts listing (now and at generated instants) must contain exactly the accounts involved in a committed posting or metadata write, with firstUsage = earliest effective timestamp among those events and a constant insertionDate; non-trivial = >= 1 back-dated transaction and >= 1 metadata-only account write; distinct = by operation history",
-		HistOpts{Features: GenFeatures, Steps: 25, Scripts: true, Reverts: true, Metadata: true, Reads: true, FinalReads: true, PITReads: true}, 150, 500,
+		HistOpts{Features: GenFeatures, Steps: 25, Scripts: true, Reverts: true, Metadata: true, Reads: true, FinalReads: true, PITReads: true}, 400, 900,
 		func(s *HistorySummary) bool { return s.BackDated >= 1 && s.MetaOps >= 1 })
 }
 
 func TestC07(t *testing.T) {
 	runFocused(t, "C07", histGen+"; around every write that returns an error (insufficient funds, reference conflict, unknown/already reverted transaction, missing metadata, script failure) or is a dry run, the raw content of every table of the stand-in is compared before/after and must be identical; non-trivial = >= 2 failed writes, >= 1 dry run and >= 2 commits; distinct = by operation history",
-		HistOpts{Features: GenFeatures, Steps: 30, Scripts: true, Reverts: true, Metadata: true, NoTrace: true, Reads: false, FinalReads: true}, 150, 500,
+		HistOpts{Features: GenFeatures, Steps: 30, Scripts: true, Reverts: true, Metadata: true, NoTrace: true, Reads: false, FinalReads: true}, 400, 900,
 		func(s *HistorySummary) bool { return s.Failures >= 2 && s.DryRuns >= 1 && s.Commits >= 2 })
 }
